@@ -48,6 +48,9 @@ Fixpoint span (p : N -> bool) (s : str) : str * str :=
   end.
 
 (* ------------------------------------------------------------------ tokenizer *)
+Definition regex_kw : list str := map s2l ["return"; "typeof"; "instanceof"; "in"; "of"; "new"; "delete"; "throw"; "void"; "case"]%string.
+Definition regex_punct : list str := map s2l ["="; "("; "["; "!"; "&"; "&&"; "|"; "||"; "?"; ":"; ","; ";"; "{"; "}"; "=>"; "??"]%string.
+
 (* [rout] is the token list so far, most recent first *)
 Fixpoint is_regex_ctx (rout : list tok) : bool :=
   match rout with
@@ -55,9 +58,9 @@ Fixpoint is_regex_ctx (rout : list tok) : bool :=
   | (k, v) :: r =>
       if k =? tkWS then is_regex_ctx r
       else if k =? tkIdent then
-        mem v (map s2l ["return"; "typeof"; "instanceof"; "in"; "of"; "new"; "delete"; "throw"; "void"; "case"]%string)
+        mem v regex_kw
       else if k =? tkPunct then
-        mem v (map s2l ["="; "("; "["; "!"; "&"; "&&"; "|"; "||"; "?"; ":"; ","; ";"; "{"; "}"; "=>"; "??"]%string)
+        mem v regex_punct
       else false
   end.
 
@@ -242,8 +245,10 @@ Fixpoint decl_loop (fuel : nat) (ts : list tok) (T : list str) : list tok * list
       end
   end.
 
-Definition kw_decl (v : str) : bool := mem v (map s2l ["var"; "let"; "const"]%string).
-Definition kw_fun (v : str) : bool := mem v (map s2l ["function"; "class"]%string).
+Definition kw_decl_list : list str := map s2l ["var"; "let"; "const"]%string.
+Definition kw_fun_list : list str := map s2l ["function"; "class"]%string.
+Definition kw_decl (v : str) : bool := mem v kw_decl_list.
+Definition kw_fun (v : str) : bool := mem v kw_fun_list.
 
 Fixpoint collect (fuel : nat) (ts : list tok) (depth : N) (L F : list str) : list str * list str :=
   match fuel with
@@ -350,16 +355,19 @@ Fixpoint first_nonws (ts : list tok) : option tok :=
 
 Definition opt_is_p (o : option tok) (v : string) : bool := match o with Some t => is_p t v | None => false end.
 
+Definition opens_kw : list str := map s2l ["return"; "let"; "const"; "var"; "in"; "of"; "typeof"; "case"; "new"; "delete";
+                            "throw"; "void"; "yield"; "await"; "default"]%string.
+Definition opens_not : list str := map s2l [")"; "]"; "}"; "{"; ";"; "=>"; "++"; "--"]%string.
+
 (* opensObject (repaired code): does a brace after [rres] (output so far, reversed) open an object/pattern *)
 Definition opens_object (rres : list tok) : bool :=
   match first_nonws rres with
   | None => false
   | Some t =>
       if is_id t then
-        mem (snd t) (map s2l ["return"; "let"; "const"; "var"; "in"; "of"; "typeof"; "case"; "new"; "delete";
-                            "throw"; "void"; "yield"; "await"; "default"]%string)
+        mem (snd t) opens_kw
       else if fst t =? tkPunct then
-        negb (mem (snd t) (map s2l [")"; "]"; "}"; "{"; ";"; "=>"; "++"; "--"]%string))
+        negb (mem (snd t) opens_not)
       else false
   end.
 
@@ -438,7 +446,8 @@ Fixpoint emit_from (fx : bool) (lastv : str) (lastk : N) (ts : list tok) : str :
       if fst t =? tkWS then emit_from fx lastv lastk r
       else
         let sep := needs_sep fx lastv (snd t) ||
-                   (fx && (lastk =? tkNumber) && (match snd t with c :: _ => c =? 46 | [] => false end)) in
+                   (fx && (lastk =? tkNumber) && (match snd t with c :: _ => c =? 46 | [] => false end)) ||
+                   (fx && (lastk =? tkRegex) && (match snd t with c :: _ => is_ident_cont c | [] => false end)) in
         (if sep then [32] else []) ++ snd t ++ emit_from fx (snd t) (fst t) r
   end.
 Definition emit (fx : bool) (ts : list tok) : str := emit_from fx [] tkWS ts.
@@ -486,8 +495,7 @@ Fixpoint order_of_obs (fuel : nat) (n : N) (obs : list (str * str)) (U ex : list
                end
       end
   end.
-Definition order_for (fx : bool) (maxn : nat) (obs : list (str * str)) (ts : list tok) : list str :=
-  let R := renamable fx ts in
+Definition order_for (R : list str) (maxn : nat) (obs : list (str * str)) (ts : list tok) : list str :=
   order_of_obs maxn 0 obs (filter (fun x => negb (mem x (map fst obs))) R) (idents_of ts).
 Fixpoint nodup_b (l : list str) : bool :=
   match l with [] => true | x :: r => negb (mem x r) && nodup_b r end.
